@@ -486,6 +486,33 @@ def _compile(ctx, model):
         if isinstance(c, ast.Call) and isinstance(c.func, ast.Name) \
                 and c.func.id == "sorted":
             sorts.append(c)
+    # only the sorts of the collected free variables matter here (sorting a
+    # list of names for an error message is nobody's business)
+    derived = set()
+    for _ in range(4):
+        for st in ast.walk(fn):
+            if isinstance(st, (ast.Assign, ast.AugAssign)):
+                tg = st.targets if isinstance(st, ast.Assign) else [st.target]
+                src_ = ast.unparse(st.value)
+                if "DependencyMapper" in src_ or any(
+                        isinstance(x, ast.Name) and x.id in derived
+                        for x in ast.walk(st.value)) or (
+                        isinstance(st, ast.AugAssign) and isinstance(
+                            st.target, ast.Name) and st.target.id in derived):
+                    for t in tg:
+                        for x in ([t] if isinstance(t, ast.Name) else
+                                  t.elts if isinstance(t, (ast.Tuple, ast.List))
+                                  else []):
+                            if isinstance(x, ast.Name):
+                                derived.add(x.id)
+
+    def about_free_variables(c):
+        operand = c.func.value if isinstance(c.func, ast.Attribute) else (
+            c.args[0] if c.args else None)
+        return operand is not None and ("DependencyMapper" in ast.unparse(
+            operand) or any(isinstance(x, ast.Name) and x.id in derived
+                            for x in ast.walk(operand)))
+    sorts = [c for c in sorts if about_free_variables(c)]
     ok = bool(sorts)
     why = "free variables are sorted by a string key"
     for c in sorts:
